@@ -336,6 +336,10 @@ def stream_configs(ctx):
                'kinds': ('now', 'prev')})
   cfgs.append({'rules': [('agg.<p>', '<p>.*', 'max')], 'alt_rules': [('agg.<p>', '<p>.*', 'count')], 'm': 1, 'inputs': ('x.a',),
                'kinds': ('now', 'late3')})
+  # ... and an edit that keeps the aggregate's name but changes which series feed it (what was learnt about a name
+  # under the old rule must not survive the reload)
+  cfgs.append({'rules': [('agg.<p>', '<p>.a', 'sum')], 'alt_rules': [('agg.<p>', '<p>.b', 'sum')], 'm': 1, 'inputs': ('x.a', 'x.b'),
+               'kinds': ('now',)})
   return cfgs
 
 
